@@ -559,6 +559,7 @@ def docx_part(ctx, dx):
                        "Coq render pass failed: " + log)
         return
     cases, info, wcases, winfo = [], [], [], []
+    env_sample: list[bytes] = []
     for term, mk, r in zip(docs, masks, rows):
         ntok = len(r["visible"])
         kind = "supported" if r["supported"] else "+".join(KIND[k] for k in r["kinds"])
@@ -572,6 +573,8 @@ def docx_part(ctx, dx):
             if enc_meta:
                 ctx.count("docx-encoding-of-rels-and-content-types:" + enc)
             out, content, err = impl_full_text(pkg)
+            if len(env_sample) < ctx.n(25, 60):
+                env_sample.append(pkg)
             ctx.case(("docx", term, variant, mk if variant == "wrapped" else None, enc), ntok >= 3,
                      "docx:" + (kind if len(r["kinds"]) <= 1 else "mixed-unsupported") + ("+row/cell-wrappers" if variant == "wrapped" else ""))
             ctx.count("docx-encoding:" + enc)
@@ -587,6 +590,8 @@ def docx_part(ctx, dx):
                 wcases.append(f"({mk[0]}, {mk[1]}, {term}, {coq_str(out)})")
                 winfo.append((term, mk, xml, out))
             docx_oracle(ctx, term, r, out, xml, variant, enc)
+    common.env_sweep(ctx, "docx-full-text", lambda p: impl_full_text(p)[0], env_sample,
+                     describe=lambda p: f"generated docx package, {len(p)} bytes, sha1 {__import__('hashlib').sha1(p).hexdigest()}")
     okw, failw, logw = coq_eval_shards(ctx, "docx_wcorr", pre2, "(corr_doc_w py_ws)", wcases, shard=100,
                                        ty="list N * list N * doc * str")
     ctx.traces += len(wcases)
@@ -710,5 +715,10 @@ META = {
                   "title/body/other grouping by style name: end-to-end oracle only; the RTF regex pre-pass is transcribed as "
                   "brace matchers (fail-closed inventory of _DEST_PATTERNS + two correspondences) but proved only for sources in "
                   "which no pattern matches, otherwise `pre_ok d` is checked per generated document; PDF/DOC/PPT/MSG/EML bodies: "
-                  "third-party text extraction.",
+                  "third-party text extraction. XLSX: the sheet trimming over ragged rows is modelled and proved (C02/PropsXlsx.v), "
+                  "the text-table formatting is end-to-end only; mbox text/plain bodies (format=flowed with DelSp absent/no, "
+                  "transfer encodings, charsets) and plain-text files in encodings with non-statistical detection (ASCII, UTF-8, "
+                  "UTF-16/32 with and without BOM, ISO-2022-JP): end-to-end oracles; 8-bit legacy code pages depend on "
+                  "charset_normalizer's statistics and format=flowed; delsp=yes is not re-flowed by the code - neither is asserted. "
+                  "Environment sweep (DEBUG logging, worker thread, TZ, cwd) over generated docx/xlsx/mbox/plain inputs and the fixtures.",
 }
